@@ -31,8 +31,12 @@ pub enum Fate {
     /// acknowledgement that carries another node id than the lookup answer of that address did (the node took a
     /// new id in between - a re-key after confirming its address): right address, right transaction id
     AckNewId,
+    /// the write is lost; a third party (an address the node never wrote to) sends a bare acknowledgement with the
+    /// write's transaction id that arrives at the very instant the request expires - after the last moment an
+    /// answer may be accepted, before the node's next loop iteration has reaped the put
+    ForgedAtExpiry,
 }
-pub const FATES: [Fate; 10] = [Fate::Ack, Fate::Lost, Fate::Late, Fate::E203, Fate::E205, Fate::E301, Fate::E302, Fate::E999, Fate::AckRo, Fate::AckNewId];
+pub const FATES: [Fate; 11] = [Fate::Ack, Fate::Lost, Fate::Late, Fate::E203, Fate::E205, Fate::E301, Fate::E302, Fate::E999, Fate::AckRo, Fate::AckNewId, Fate::ForgedAtExpiry];
 
 #[derive(Default)]
 struct Obs {
@@ -77,6 +81,20 @@ pub fn scenario(r: &mut Report, c: &Case) {
     let tokenless: Vec<bool> = (0..c.n).map(|i| c.tokenless.get(i).copied().unwrap_or(false)).collect();
     let (fates2, tokenless2) = (fates.clone(), tokenless.clone());
     let mut trng = rng.fork(1);
+    // when each write request left the node (for the forgery that arrives exactly at its expiry)
+    let sent_at: std::sync::Arc<std::sync::Mutex<HashMap<Vec<u8>, u64>>> = Default::default();
+    let sent_at2 = sent_at.clone();
+    if fates.contains(&Fate::ForgedAtExpiry) {
+        let sa = sent_at.clone();
+        w.set_fault(Some(Box::new(move |info: &SendInfo| {
+            if let Some(k) = Krpc::parse(info.bytes) {
+                if k.y == b'q' && matches!(k.q.as_deref(), Some("put") | Some("announce_peer") | Some("announce_signed_peer")) {
+                    sa.lock().unwrap_or_else(|e| e.into_inner()).insert(k.t.clone(), info.now);
+                }
+            }
+            None
+        })));
+    }
     w.set_responder(Some(Box::new(move |w, sock, d| {
         let Some(q) = Krpc::parse(&d.bytes) else { return true };
         if q.y != b'q' {
@@ -96,6 +114,18 @@ pub fn scenario(r: &mut Report, c: &Case) {
                     (response(&q.t, B::dict(vec![("id", B::bytes(&other))]), Some(&d.from), Some(&VERSION_RS6)).encode(), 0)
                 }
                 Fate::Lost => return true,
+                Fate::ForgedAtExpiry => {
+                    let sent = sent_at2.lock().unwrap_or_else(|e| e.into_inner()).get(&q.t).copied();
+                    if let Some(t_sent) = sent {
+                        let forged = response(&q.t, B::dict(vec![("id", B::bytes(&[0x66; 20]))]), Some(&d.from), Some(&VERSION_RS6)).encode();
+                        let third_party = SocketAddrV4::new(Ipv4Addr::new(66, 6, 6, 1 + (i % 200) as u8), 6881);
+                        let expiry = t_sent + 500 * MS;
+                        for extra in [0u64, 1_000, 200_000] {
+                            w.inject(third_party, &forged, d.from, (expiry + extra).saturating_sub(w.now()));
+                        }
+                    }
+                    return true;
+                }
                 Fate::Late => (response(&q.t, B::dict(vec![("id", B::bytes(&me))]), Some(&d.from), Some(&VERSION_RS6)).encode(), 4 * SEC),
                 Fate::E203 => (error(&q.t, 203, "bad token").encode(), 0),
                 Fate::E205 => (error(&q.t, 205, "too big").encode(), 0),
@@ -978,7 +1008,7 @@ pub fn run(a: &Args) -> Report {
                     continue;
                 }
                 let mut x = assignment;
-                let fates: Vec<Fate> = (0..n).map(|_| { let f = FATES[(x % 10) as usize]; x /= 10; f }).collect();
+                let fates: Vec<Fate> = (0..n).map(|_| { let f = FATES[(x % FATES.len() as u64) as usize]; x /= FATES.len() as u64; f }).collect();
                 run_case(&mut r, Case { seed: mix(a.seed, code), kind, fates, tokenless: vec![], n, default_fate: Fate::Ack, extra_rounds: 0, tokenless_mode: 0 });
                 r.count("exhaustive_assignments");
             }
